@@ -463,6 +463,12 @@ fn fit(mut spec: Spec, m: Mut, spare: &forge::PlutusS, salt: u8) -> Spec {
                 p.total_collateral = false;
             }
         }
+        // the collateral mutators edit one collateral entry: keep it the only one
+        if matches!(m, Mut::CollateralToScriptAddress | Mut::CollateralWithAssets | Mut::CollateralTooSmall | Mut::CollateralJustBelowMinimum | Mut::PercentageJustAboveCollateral) {
+            if let Some(p) = &mut spec.plutus {
+                p.second_collateral = false;
+            }
+        }
         if m == Mut::DropScriptReference {
             if let Some(p) = &mut spec.plutus {
                 p.via_reference = true;
